@@ -1,6 +1,6 @@
 #!/usr/bin/env python3
 """tools/seedtest.py <seed-name> [<property-id> ...] : apply seeded/<seed>/patch.diff to /repo, run the quick check(s), undo the patch.
-Prints DETECTED / MISSED per check.  /repo must have no uncommitted changes to tracked files."""
+Prints DETECTED / MISSED per check.  `tools/seedtest.py --clean` removes the scratch worktree."""
 import os, sys, subprocess, json, time
 V = os.path.dirname(os.path.dirname(os.path.abspath(__file__)))
 
@@ -10,20 +10,24 @@ def sh(cmd, **kw):
 
 
 def main():
+    if sys.argv[1] == '--clean':
+        sh('git -C /repo worktree remove --force /tmp/vf_seedrepo'); sh('rm -rf /tmp/vf_seedrepo %s/build_alt' % V); sh('git -C /repo worktree prune'); return 0
     seed = sys.argv[1]
     d = os.path.join(V, 'seeded', seed)
     props = sys.argv[2:] or [seed.split('-')[0]]
     tier = os.environ.get('SEED_TIER', 'quick')
-    if sh('git -C /repo status --porcelain --untracked-files=no').stdout.strip():
-        print('refusing: /repo has uncommitted changes')
-        return 2
-    r = sh('git -C /repo apply %s/patch.diff' % d)
+    # the seeded change is applied to a scratch worktree of /repo's HEAD (never to /repo itself); the checks build from it through VERIF_REPO
+    WT = '/tmp/vf_seedrepo'
+    head = sh('git -C /repo rev-parse HEAD').stdout.strip()
+    if not os.path.isdir(WT):
+        r = sh('git -C /repo worktree add --detach %s HEAD' % WT)
+        if r.returncode:
+            print(r.stdout); return 2
+    sh('git -C %s checkout -q -- . && git -C %s checkout -q --detach %s' % (WT, WT, head))
+    r = sh('git -C %s apply %s/patch.diff' % (WT, d))
     if r.returncode != 0:
-        r = sh('git -C /repo apply -3 %s/patch.diff' % d)
-        if r.returncode != 0:
-            print('patch does not apply:', r.stdout)
-            sh('git -C /repo checkout -- .')
-            return 2
+        print('patch does not apply:', r.stdout)
+        return 2
     out = {}
     saved = {}
     for p in props:     # the evidence of a run against a seeded change must not replace the evidence of the real tree
@@ -32,7 +36,7 @@ def main():
     try:
         for p in props:
             t0 = time.time()
-            r = sh('cd %s && ./check %s --tier %s' % (V, p, tier))
+            r = sh('cd %s && VERIF_REPO=%s ./check %s --tier %s' % (V, WT, p, tier))
             viol = [l for l in r.stdout.splitlines() if l.startswith('VIOLATION')]
             detail = [l for l in r.stdout.splitlines() if l.startswith('  ') and ('FAIL' in l or 'ERROR' in l or 'runtime error' in l)][:2]
             verdict = 'DETECTED' if (r.returncode == 1 and viol) else ('MISSED' if r.returncode == 0 else 'ERROR rc=%d' % r.returncode)
@@ -41,11 +45,10 @@ def main():
                 print('   ', l[:300])
             if verdict.startswith('ERROR'):
                 print(r.stdout[-1500:])
-            out[p] = {'verdict': verdict, 'tier': tier, 'seconds': round(time.time() - t0), 'ran': 'git -C /repo apply seeded/%s/patch.diff; ./check %s --tier %s; git -C /repo checkout -- .' % (seed, p, tier),
+            out[p] = {'verdict': verdict, 'tier': tier, 'seconds': round(time.time() - t0), 'ran': 'scratch worktree of /repo HEAD + git apply seeded/%s/patch.diff; VERIF_REPO=<worktree> ./check %s --tier %s; worktree reset' % (seed, p, tier),
                       'repo_head': sh('git -C /repo rev-parse --short HEAD').stdout.strip(), 'reported': (viol[:1] + [x.strip()[:400] for x in detail[:1]])}
     finally:
-        sh('git -C /repo checkout -- .')
-        sh('git -C /repo reset -q')
+        sh('git -C %s checkout -q -- .' % WT)
         # remove replays written for the mutant so they are not mistaken for findings on the real tree
         for p in props:
             sh('rm -rf %s/replays/%s' % (V, p))
